@@ -59,6 +59,12 @@ def _case(draw, tier):
         pi = draw(st.integers(0, n - 2))
         sname = f"sig{si}"
         kindp = draw(st.sampled_from(["func", "func", "interrupt", "data"]))
+        if kindp == "data":
+            # prefer a producer whose awaited output may also carry a fallback binding (see bind_waited below)
+            pn0 = {o for x in topo for o in x["outs"]}
+            fb = [i for i in range(n - 1) if len(topo[i]["outs"]) == 1 and any(q in pn0 and q not in topo[i]["defaults"] for q in topo[i]["params"])]
+            if fb and prob(draw, 0.7):
+                pi = draw(st.sampled_from(fb))
         if kindp == "data" and topo[pi]["outs"]:
             sname = topo[pi]["outs"][0]  # wait on a data name
         else:
@@ -94,7 +100,13 @@ def _case(draw, tier):
             if x.get("emit") and x["k"] == "func":
                 x["cache"] = True
     em = [x["name"] for x in topo if x.get("emit") and x["k"] == "func"]
-    return {"part": "A", "topo": topo, "nodes": draw(gen.permuted(nodes)), "sched": draw(st.lists(st.integers(0, 7), max_size=40)), "cache_emitters": cache_emitters,
+    produced = {o for x in topo for o in x["outs"]}
+    # (the run-time validator only accepts a fallback for an internal name whose producer cannot start from the seed values alone
+    # and has no other consumed output: single-output producers with an upstream-fed, undefaulted parameter)
+    okprod = {x["outs"][0] for x in topo if len(x["outs"]) == 1 and any(q in produced and q not in x["defaults"] for q in x["params"])}
+    data_waited = sorted({w for x in topo for w in x.get("wait_for", []) if w in okprod})
+    bind_waited = draw(st.sampled_from(data_waited)) if data_waited and not any(x["k"] == "interrupt" for x in topo) and prob(draw, 0.5) else None
+    return {"part": "A", "bind_waited": bind_waited, "topo": topo, "nodes": draw(gen.permuted(nodes)), "sched": draw(st.lists(st.integers(0, 7), max_size=40)), "cache_emitters": cache_emitters,
             "perms": [draw(st.permutations(list(range(len(nodes))))) for _ in range(2)],
             "entry_emitter": draw(st.sampled_from(em)) if em and prob(draw, 0.5) else None}
 
@@ -200,6 +212,14 @@ def _part_a(case, ev):
     edge_defaults = any(p in prod for n in topo for p in n.get("defaults", {}))
     if edge_defaults:
         labels.add("default_on_edge")
+    gextra, rkw = {}, {}
+    if case.get("bind_waited"):
+        # the awaited DATA name also carries a graph-level binding (a fallback for its consumers, who may start early with it);
+        # a binding is not a production: the waiter still starts only after a producer of the name has completed
+        gextra = {"bind": {case["bind_waited"]: ["fallback", case["bind_waited"]]}}
+        rkw = {"on_internal_override": "ignore"}
+        edge_defaults = True
+        labels.add("awaited_data_name_is_bound")
     from hypergraph import AsyncRunner, SyncRunner
     from hypergraph.cache import InMemoryCache
 
@@ -212,19 +232,22 @@ def _part_a(case, ev):
         if runner == "sync" and has_interrupt:
             continue
         ctx = Ctx()
-        g = make_graph(ctx, {"nodes": nodes}, "async" if runner == "async" else "sync")
-        tag = f"{runner} DAG run {rep}"
+        g = make_graph(ctx, {"nodes": nodes, **gextra}, "async" if runner == "async" else "sync")
+        tag = f"{runner} DAG run {rep}" + (f" bind({case['bind_waited']})" if gextra else "")
         run_vals = dict(vals)
         for attempt in range(4):
             if runner == "sync":
                 rec = Recorder()
-                out = run_sync(g, run_vals, runner=shared["sync"], event_processors=[rec])
+                out = run_sync(g, run_vals, runner=shared["sync"], event_processors=[rec], **rkw)
                 events = rec.events
             else:
-                out, sched = run_scheduled(ctx, g, run_vals, case["sched"], runner=shared["async"])
+                out, sched = run_scheduled(ctx, g, run_vals, case["sched"], runner=shared["async"], **rkw)
                 events = sched.hold.events
                 if out.status == "deadlock":
                     raise Violation("c17.deadlock", f"[{tag}] {out.error}")
+            if gextra and out.status == "raised" and isinstance(out.error, ValueError) and "Invalid internal override configuration" in str(out.error):
+                ev.discard("fallback_binding_rejected_by_validator")
+                return
             if out.status != "paused":
                 break
             # a pausing interrupt that emits: answer it; the resumed run must still produce its signal
